@@ -74,6 +74,27 @@ func (e *Engine) invoke(st *State, fv Value, args []Value, retTo *ssa.Call, isDe
 				e.cancelCtx(st, o.Tag)
 				return
 			}
+		}
+		if len(fn.Env) == 2 {
+			if o, ok := fn.Env[0].(OpaqueV); ok && o.Tag == "opaque-method:swapper" {
+				sl := fn.Env[1].(SliceV)
+				it, ok1 := args[0].(*Term)
+				jt, ok2 := args[1].(*Term)
+				if !ok1 || !ok2 || !it.IsConst() || !jt.IsConst() {
+					e.unsupported_(st, "sort swapper with symbolic indices")
+					return
+				}
+				i, j := int(it.Int64()), int(jt.Int64())
+				if i < 0 || j < 0 || i >= sl.Len || j >= sl.Len {
+					e.goPanic(st, "index out of range (sort swapper)", nil)
+					return
+				}
+				arr := navigate(st.wobj(sl.Obj).V, sl.Path).(*ArrayV)
+				arr.E[sl.Off+i], arr.E[sl.Off+j] = arr.E[sl.Off+j], arr.E[sl.Off+i]
+				return
+			}
+		}
+		if len(fn.Env) == 1 {
 			if o, ok := fn.Env[0].(OpaqueV); ok && strings.HasPrefix(o.Tag, "opaque-method:") {
 				if retTo != nil {
 					setRes(opaqueResult(retTo.Type(), o.Tag))
